@@ -133,6 +133,8 @@ inline const std::vector<Emb>& emb_table() {
     {3, 1LL << 13, (1LL << 52), -(1LL << 52), 1},
     {4, 1LL << 21, (1LL << 61) - (1LL << 28), -(1LL << 61) + (1LL << 28), 1},
     {5, 1000, 0, 0, 1},
+    {6, 1LL << 30, 0, 0, 1},                       // huge features: coordinate DIFFERENCES beyond 2^31 (products beyond 2^63)
+    {7, 1LL << 54, -(1LL << 59), (1LL << 58), 1},   // differences up to 2^60
   };
   return t;
 }
